@@ -9,10 +9,14 @@ COMMON = dict(claim="Correspondence (translation validation) between the real an
 NOT_CLAIMED = {}
 
 PROPS = {
-    "C01": dict(level="translation_validation", modules=["SemVerif.Props.C01"],
-                theorems=[], profiles=[("wf", 300, 20000), ("fault1", 300, 20000), ("fault2", 200, 10000), ("wild", 500, 30000)]),
-    "C02": dict(level="translation_validation", modules=["SemVerif.Props.C02"],
-                theorems=[], profiles=[("wf", 600, 40000), ("wfclean", 300, 20000)]),
+    "C01": dict(level="proof", modules=["SemVerif.Props.C01"],
+                theorems=["SemVerif.C01", "SemVerif.C01_enforced", "SemVerif.T1", "SemVerif.sim_exprM", "SemVerif.sim_ifCondition", "SemVerif.sim_bodyStmts", "SemVerif.rel_run"],
+                claim="Machine-checked Lean 4 theorems: C01_enforced (if the run of a program of the domain leaves the error list empty, the reference rule checker refCheck of DESIGN §3.1 finds no enforced violation) and C01 (on the model's result the output predicate reports only instances of the four recorded findings F6a, F8, F9, F10 — the rule instances the current analyzer does not enforce). Corollaries of T1: a simulation between the analyzer model and the independent rule checker (own scope and type computation) maintained until the first violation, by mutual structural induction over expressions, statements and control constructs, for every program, depth and chain length. The full-strength statement (accepted ⇒ no violation at all) is false on the current tree: its four witnesses are in corpus/C01.txt and are replayed on the implementation on every run as KNOWN-FINDING. Tied to /repo by the correspondence run (verdict projection; fault1 / fault2 streams inject every rule class at sampled sites).",
+                technique="Lean 4 proof (verdict simulation between analyzer model and reference rule checker, mutual structural induction) + differential correspondence of the executable model", profiles=[("wf", 300, 20000), ("fault1", 300, 20000), ("fault2", 200, 10000), ("wild", 500, 30000)]),
+    "C02": dict(level="proof", modules=["SemVerif.Props.C02"],
+                theorems=["SemVerif.C02", "SemVerif.C02_errors", "SemVerif.C13", "SemVerif.T1", "SemVerif.sim_exprM", "SemVerif.sim_ifCondition", "SemVerif.sim_bodyStmts", "SemVerif.rel_run"],
+                claim="Machine-checked Lean 4 theorem C02: for every program, if the reference rule checker finds no violation (WellFormedB) and loop-flavoured if-bodies occur only inside loops, the model's run neither panics nor reports any error — corollary of T1 (verdict simulation) and C13. Non-vacuity example in the file (shadowing, forward reference, nested block, constant). Tied to /repo by the correspondence run on type-directed well-formed programs, each independently confirmed by refCheck in the driver.",
+                technique="Lean 4 proof (verdict simulation between analyzer model and reference rule checker, mutual structural induction) + differential correspondence of the executable model", profiles=[("wf", 600, 40000), ("wfclean", 300, 20000)]),
     "C03": dict(level="translation_validation", modules=["SemVerif.Props.C03"],
                 theorems=[], profiles=[("wf", 500, 30000), ("wfclean", 300, 20000), ("flow", 300, 20000)]),
     "C04": dict(level="translation_validation", modules=["SemVerif.Props.C04"],
@@ -45,8 +49,10 @@ PROPS = {
                 theorems=["SemVerif.C13", "SemVerif.C13_function", "SemVerif.ESteps.panic_eq", "SemVerif.inv_panicSites"],
                 claim="Machine-checked: (1) every function of the Lean model is accepted as total by structural recursion (termination for every AST; the probe loops' fuel is proved sufficient); (2) theorem C13: for every program whose loop-flavoured if-bodies occur only inside loops the run does not panic (nothing below statement level can panic — the argument-index site is unreachable after the F1 repair; the only site is the documented expect); (3) inv_panicSites pins the unwrap/expect/index/+1 sites of the Rust source to the ones the model accounts for, regenerated on every run. RefCell borrows, integer overflow and native stack depth are outside the model and only exercised by running the real code under catch_unwind.",
                 technique="Lean 4 proof (mutual structural induction / invariants) + differential correspondence of the executable model", profiles=[("wild", 800, 50000), ("loopout", 300, 10000), ("wf", 200, 10000)]),
-    "C14": dict(level="translation_validation", modules=["SemVerif.Props.C14"],
-                theorems=[], profiles=[("fault1", 400, 30000), ("fault2", 300, 20000), ("wild", 600, 40000)]),
+    "C14": dict(level="proof", modules=["SemVerif.Props.C14"],
+                theorems=["SemVerif.C14", "SemVerif.T1", "SemVerif.sim_exprM", "SemVerif.sim_ifCondition", "SemVerif.sim_bodyStmts", "SemVerif.rel_run"],
+                claim="Machine-checked Lean 4 theorem C14: for every program of the domain the first entry of the model's error list has the kind — and for kinds that name an identifier, the identifier — of the first enforced violation the reference rule checker meets in analysis order (types; constants and signatures in source order; bodies in source order, statements and operands left to right, type mismatches in post-order of the precedence tree); both lists are empty together. This is T1 itself. Tied to /repo by the correspondence run (projection: first error with value and location) on single-fault, double-fault and noisy programs.",
+                technique="Lean 4 proof (verdict simulation between analyzer model and reference rule checker, mutual structural induction) + differential correspondence of the executable model", profiles=[("fault1", 400, 30000), ("fault2", 300, 20000), ("wild", 600, 40000)]),
     "C15": dict(level="proof", modules=["SemVerif.Props.C15"],
                 theorems=["SemVerif.C15", "SemVerif.rel_run"],
                 claim="Machine-checked Lean 4 theorem C15: for every program the output predicate holds on the model's result — the three tables and the global stack are exactly those of the declarative registration declPhase (first declaration of each name whose own checks pass; types first, then constants and functions in source order, one instruction each), one root block per function, no key twice. Proved by a simulation between the model's pass1/pass2 and the rule checker's declTypes/declConstsFns, by induction over the top-level list. Tied to /repo by the correspondence run (projection: tables, global stack, number of roots) on programs with duplicate names and failing declarations.",
